@@ -556,12 +556,18 @@ func (g *gen) classify(pi *pkgInfo, subCanon func(ast.Expr) string, call *ast.Ca
 			if fd := g.l.funcs[fn]; fd != nil && g.inScope(fd) {
 				return callKind{kind: "static", fd: fd, recv: f.X, rpath: implicitPath(sel), name: fd.name}
 			}
+			if isBodyRead(fn, call) {
+				return callKind{kind: "bodyread", name: name}
+			}
 			return callKind{kind: "opaque", name: name}
 		}
 		if sel == nil {
 			if fn, ok := pi.info.Uses[f.Sel].(*types.Func); ok { // pkg.Func
 				if fd := g.l.funcs[fn]; fd != nil && g.inScope(fd) {
 					return callKind{kind: "static", fd: fd, name: fd.name}
+				}
+				if isBodyRead(fn, call) {
+					return callKind{kind: "bodyread", name: name}
 				}
 				return callKind{kind: "opaque", name: name}
 			}
@@ -578,9 +584,54 @@ func (g *gen) classify(pi *pkgInfo, subCanon func(ast.Expr) string, call *ast.Ca
 			if f.Sel.Name == "TryLock" || f.Sel.Name == "TryRLock" {
 				return callKind{kind: "trylock", name: name}
 			}
+			// values of packages outside the four translated ones carry no type information here:
+			// go-rancher's ApiContext.Read (reads and decodes the request body) is recognised by name
+			if id := firstIdent(f.X); id != nil && f.Sel.Name == "Read" && len(call.Args) == 1 &&
+				strings.Contains(strings.ToLower(id.Name), "context") {
+				return callKind{kind: "bodyread", name: name}
+			}
+			if bodyReadNames[name] && mentionsBody(call) {
+				return callKind{kind: "bodyread", name: name}
+			}
+			if f.Sel.Name == "Decode" && mentionsBody(f.X) {
+				return callKind{kind: "bodyread", name: name}
+			}
 		}
 	}
 	return callKind{kind: "opaque", name: name}
+}
+
+// isBodyRead: a call that waits for the HTTP client to deliver the request body: go-rancher's
+// (*api.ApiContext).Read, and io/ioutil.ReadAll, io.Copy, (*json.Decoder).Decode applied to an
+// expression that mentions a request's Body. A handler blocked there is blocked on its peer.
+var bodyReadNames = map[string]bool{"ioutil.ReadAll": true, "io.ReadAll": true, "io.Copy": true, "io.ReadFull": true}
+
+func mentionsBody(e ast.Node) bool {
+	found := false
+	ast.Inspect(e, func(n ast.Node) bool {
+		if se, ok := n.(*ast.SelectorExpr); ok && se.Sel.Name == "Body" {
+			found = true
+		}
+		return !found
+	})
+	return found
+}
+
+func isBodyRead(fn *types.Func, call *ast.CallExpr) bool {
+	if fn == nil {
+		return false
+	}
+	full := fn.FullName()
+	if strings.HasSuffix(full, "go-rancher/api.ApiContext).Read") {
+		return true
+	}
+	switch full {
+	case "io/ioutil.ReadAll", "io.ReadAll", "io.Copy", "io.ReadFull", "(*encoding/json.Decoder).Decode":
+		if mentionsBody(call) {
+			return true
+		}
+	}
+	return false
 }
 
 func firstIdent(e ast.Expr) *ast.Ident {
@@ -624,7 +675,7 @@ func (g *gen) nodeEffectful(pi *pkgInfo, n ast.Node) bool {
 		case *ast.CallExpr:
 			k := g.classify(pi, nil, x)
 			switch k.kind {
-			case "mutex", "trylock", "panic", "recover":
+			case "mutex", "trylock", "panic", "recover", "bodyread":
 				found = true
 			case "static":
 				if g.effectful(k.fd) {
@@ -729,6 +780,9 @@ func (c *ctx) callEffect(call *ast.CallExpr, deferred bool) *S {
 		return c.unknown("conditional lock acquisition "+k.name, call.Pos())
 	case "mutex":
 		return c.mutexOp(k.op, k.path)
+	case "bodyread":
+		// blocked on the client until the body has arrived: the same obligation as a blocking send
+		return &S{K: "Send", M: c.g.chanID("client: request body (" + k.name + ")")}
 	case "lit":
 		lit := unparen(call.Fun).(*ast.FuncLit)
 		n := c.child()
